@@ -105,7 +105,7 @@ pub fn check(case: &Case, obs: &Obs) -> CheckResult {
 
 fn case_strategy() -> impl Strategy<Value = Case> {
     // queries with probability 1/2; an indefinite block at the end is fine (consumed greedily)
-    message_with(fixed_header(any::<bool>().boxed()), 6, 3, true, true).prop_flat_map(|msg| {
+    crate::fixtree::fixed_message(any::<bool>().boxed(), 6, 3, true, true).prop_flat_map(|msg| {
         let plans = succeeding_plans(&msg);
         (Just(msg), plans).prop_map(|(msg, plans)| Case { msg, plans })
     })
